@@ -26,7 +26,7 @@ pub fn trial(seed: u64, nthreads: usize, iters: usize, out: &str, cases: &str) {
     let shared_docs = Arc::new(docs);
     let docs_text: Arc<Vec<String>> = Arc::new(docs_before.clone());
     // expressions shared between threads are compiled by thread 0 and published through this slot
-    let shared_exprs: Arc<Mutex<Option<Arc<Vec<Option<jmespath::Expression<'static>>>>>>> = Arc::new(Mutex::new(None));
+    let shared_exprs: Arc<Mutex<Option<Arc<Vec<Result<jmespath::Expression<'static>, Value>>>>>> = Arc::new(Mutex::new(None));
     let barrier = Arc::new(Barrier::new(nthreads));
     let results: Arc<Mutex<Vec<Value>>> = Arc::new(Mutex::new(vec![]));
     let mut handles = vec![];
@@ -44,7 +44,9 @@ pub fn trial(seed: u64, nthreads: usize, iters: usize, out: &str, cases: &str) {
             let first = rng.gen_range(0..texts.len());
             let own = jmespath::compile(&texts[first]);
             if t == 0 {
-                let all: Vec<Option<jmespath::Expression<'static>>> = texts.iter().map(|s| jmespath::compile(s).ok()).collect();
+                // (a text that does not compile is published with the failure itself, so that it reads the same whoever reports it)
+                let all: Vec<Result<jmespath::Expression<'static>, Value>> =
+                    texts.iter().map(|s| jmespath::compile(s).map_err(|e| json!({"err":err_to_json(&e, s),"stage":"compile"}))).collect();
                 *shared_exprs.lock().unwrap() = Some(Arc::new(all));
             }
             // the hot loop only searches and keeps the raw results: abstraction and logging happen afterwards, so that the threads
@@ -74,8 +76,8 @@ pub fn trial(seed: u64, nthreads: usize, iters: usize, out: &str, cases: &str) {
                         }
                     } else if use_shared {
                         match &shared.unwrap()[i] {
-                            Some(e) => Raw::Done(e.search(shared_docs[i].clone())),
-                            None => Raw::NoCompile(json!({"err":{"class":"parse","kind":"parse"},"stage":"compile"})),
+                            Ok(e) => Raw::Done(e.search(shared_docs[i].clone())),
+                            Err(v) => Raw::NoCompile(v.clone()),
                         }
                     } else if i == first {
                         match &own {
